@@ -387,6 +387,9 @@ def _probe(env, what: Dict) -> Any:
         out["listen"] = {n.config.hostname: {name: sorted(sw.listen_on_ports) for name, sw in n.software_manager.software.items()
                                              if getattr(sw, "listen_on_ports", None)}
                          for n in env.game.simulation.network.nodes.values()}
+    if "listen_lists" in what:  # `_set_software_listen_on_ports` on lists of port NAMES (string-hashed set), built in THIS process
+        from harness.rigs import nondet_sites as _S
+        out["listen_lists"] = [_S.listen_ports_probe(es) for es in what["listen_lists"]]
     if "explode" in what:  # NMAP target expansion, visited in sorted order after the F-8 repair
         from ipaddress import IPv4Address, IPv4Network
         from primaite.simulator.system.applications.nmap import NMAP
